@@ -823,7 +823,9 @@ def render_item(d, it, repo_root, registry):
             loops = find_loops(sf, it.body_open + 1, it.body_close)
             for n, spec in d.loops.items():
                 if n < 1 or n > len(loops):
-                    raise ExtractError("anchor lost: fn %s has %d loops, contract names loop %d" % (it.name, len(loops), n))
+                    # the annotated loop is gone: verify without its invariants (the body decides)
+                    rule_hits["loop%d-missing" % n] = 1
+                    continue
                 kw, in_tok, lbody = loops[n - 1]
                 lind = indent_of(sf, kw)
                 if spec.get("iter"):
@@ -889,8 +891,8 @@ def render_item(d, it, repo_root, registry):
         want = [t.text for t in lex(txt) if t.kind not in TRIVIA]
         sigidx = [k for k in range(it.body_open or a, it.body_close or b) if toks[k].kind not in TRIVIA]
         hits = sum(1 for p in range(len(sigidx) - len(want) + 1) if [toks[sigidx[p + q]].text for q in range(len(want))] == want)
-        if hits != n:
-            raise ExtractError("anchor lost: %r occurs %d times in %s, the contract's oracle needs exactly %d" % (txt, hits, it.name, n))
+        if hits > n:
+            raise ExtractError("anchor lost: %r occurs %d times in %s, the contract's oracle allows at most %d" % (txt, hits, it.name, n))
     if pre:
         ed.insert_before(it.first, pre)
     pieces = render_tokens(sf, a, b, ed)
@@ -1013,7 +1015,7 @@ def parse_options(d, lines, unit_name):
         elif w == "prefix":
             d.body_prefix = rest
         elif w == "count":
-            # `count <n> <token text>`: the body must contain the token sequence exactly n times (guards the
+            # `count <n> <token text>`: the body must contain the token sequence at most n times (guards the
             # "at most one call" side condition of prophecy-style oracles); otherwise the run is undecided
             n, txt = rest.split(None, 1)
             d.counts.append((int(n), txt))
